@@ -8,6 +8,7 @@ then checks identity of all instances and equality with an independent LWW refer
 fleets of three real Sync loops are recorded (every LMDB write transaction with its id, content reads, decoded
 blobs) and each instance's log is validated by TLC against FleetTrace.tla (the data-plane operators).
 """
+import vlib
 import proto, fleet
 
 
@@ -16,6 +17,9 @@ def run(c):
     # binding (V): free-running real fleets (three Sync loops with receivers, cleaners, random writers); every
     # instance's transaction log must be a behaviour of FleetTrace.tla and the fleet must converge
     fleet.validate(c, 'C01', c.tier)
+    # identical application DBIs for every kind of DBI (plain, integer keys, duplicate keys with the dupsort hack),
+    # on a receiver that has to create the DBI
+    vlib.absorb(c, vlib.run_harness(['converge-kinds'], timeout=300))
     # convergence presupposes that every committed write gets uploaded: behaviours of the sync loop (LSLoop, checked
     # exhaustively under C03/C09) replayed on the real loop, with the publish monitor of C09 counted for C01
     import loopx
